@@ -350,7 +350,7 @@ def run(res, args):
     if not ok:
         return res.finish()
     rng = common.rng_for(res.seed, "c19")
-    mult = 1 if res.tier == "quick" else 8
+    mult = 1 if res.tier == "quick" else 16
     report_part(res, rng, mult)
     relay_part(res, rng, 40 * mult)
     res.traces = res.distribution.get("relay-session", 0)
